@@ -50,6 +50,17 @@ int main(int argc, char** argv) {
     string got = dec("HDA:3", {0xff, 0xff, 20}, &r, &out);
     if (got != "-.-.2020") fail("HDA:3 bytes ff ff 14 decoded after a field printed in hex on the same stream: \"%s\", on a fresh stream \"-.-.2020\"", got.c_str());
   }
+  if (want(run, "min") || want(run, "rt_min")) for (unsigned n : {255u, 511u, 767u, 1023u, 1279u, 0u, 1440u}) {
+    snprintf(exp, sizeof(exp), "%02u:%02u", n / 60, n % 60);
+    string got = dec("MIN", {n & 0xff, n >> 8}, &r);
+    if (r != RESULT_OK || got != exp) fail("MIN bytes %02x %02x (%u minutes since midnight): decoded as \"%s\" (%s), expected %s", n & 0xff, n >> 8, n, got.c_str(), getResultCode(r), exp);
+  }
+  if (want(run, "rt_hti") || want(run, "rt_bti") || want(run, "rt_vti")) for (const char* type : {"HTI", "BTI", "VTI"}) for (const char* text : {"12:24:30", "00:24:01", "23:24:59"}) {
+    const DataType* t = DataTypeList::getInstance()->get(type);
+    istringstream in(text); SlaveSymbolString o; o.push_back(0); size_t used = 0;
+    result_t w = t->writeSymbols(0, 3, &in, &o, &used);
+    if (w != RESULT_OK) fail("type %s: the valid time \"%s\" (which the bytes decode to) is rejected by the encoder: %s", type, text, getResultCode(w));
+  }
   if (!g_failures) printf("NOT-REPRODUCED\n");
   return 0;
 }
